@@ -175,8 +175,22 @@ fn decode_body(r: &Resp) -> Option<Vec<u8>> {
 		None | Some("") | Some("identity") => Some(r.body.clone()),
 		Some("gzip") => indep::gunzip(&r.body).ok(),
 		Some("br") => indep::brotli_d(&r.body).ok(),
+		Some("deflate") => {
+			// RFC 9110 "deflate" = zlib stream (some servers send raw deflate)
+			use std::io::Read;
+			let mut out = vec![];
+			if flate2::read::ZlibDecoder::new(&r.body[..]).read_to_end(&mut out).is_ok() {
+				return Some(out);
+			}
+			let mut out = vec![];
+			flate2::read::DeflateDecoder::new(&r.body[..]).read_to_end(&mut out).ok().map(|_| out)
+		}
 		_ => None,
 	}
+}
+/// a coding this harness has no decoder for (zstd): the body of such a response cannot be identified here
+fn undecodable(r: &Resp) -> bool {
+	matches!(r.headers.get("content-encoding").map(|s| s.as_str()), Some("zstd"))
 }
 
 /// percent-encoding of a path segment as a standards-conforming client sends it
